@@ -106,7 +106,7 @@ def _num(rng):
 
 
 def gen_cases(rng, tier):
-    n = {"quick": 8000, "thorough": 150000, "search": 6000}[tier]
+    n = {"quick": 8000, "thorough": 100000, "search": 6000}[tier]
     if tier != "search":
         for v in range(-1100, 1101):
             yield {"kind": "num", "code": "en_US", "n": v}
